@@ -286,6 +286,9 @@ class PhaseScreenVonKarman(PhaseScreen):
 
         self.n_columns = n_columns
 
+        # (a Python int: sizes held as narrow or unsigned NumPy integers wrap around
+        # in the arithmetic below)
+        nx_size = int(nx_size)
         self.requested_nx_size = nx_size
         self.nx_size = nx_size
         self.pixel_scale = pixel_scale
@@ -403,6 +406,7 @@ class PhaseScreenKolmogorov(PhaseScreen):
         self.pixel_scale = pixel_scale
         self.r0 = r0
         self.L0 = L0
+        stencil_length_factor = int(stencil_length_factor)      # (numpy.int8(4) * 33 wraps around)
         self.stencil_length_factor = stencil_length_factor
         self.stencil_length = stencil_length_factor * self.nx_size
         self.random_seed = random_seed
